@@ -9,12 +9,23 @@ harness entity (which feeds StateChange / price_change broadcasts back into the 
 knowledge to graph neighbours, referral cascades (targeted stimuli) and events to a Sink / Counter.  The stimulus
 schedule puts several broadcast / targeted / price-change / policy / influence-propagation / state-change /
 direct stimuli at the same instants.  A Pollster harness entity maps the mean belief to a consumer sentiment and
-drives one or two Advertisers (audience tiers, periodic evaluation) reporting to an AdPlatform."""
+drives one or two Advertisers (audience tiers, periodic evaluation) reporting to an AdPlatform.
+
+Widened configuration space (new cfg keys are optional; old cfgs keep their meaning): population sizes 1-3 and
+60-80 besides 20-40; every heartbeat / action delay / influence period / payment, message and shop latency / poll
+period / advertiser evaluation interval / stimulus and sentiment time comes from the boundary palette `dur_ms`
+(values that lose a nanosecond in Instant.from_seconds such as 1.001 s, 1-4 decimals, action delay longer than the
+heartbeat, evaluation interval that is no multiple of anything else); a "hot" agent receives more stimuli than the
+episodic memory holds (AgentState._memories: deque(maxlen=100)) so that the memory wraps around; softmax
+temperatures / aspiration levels / conformity weights at and beyond the ends of their ranges; Environment built
+with defaults (no influence model, no shared state) or by late register_agent(); Agents without a decision
+model; segment fractions 0 and 1; graph generators with k odd / larger than the population, rewiring and edge
+probabilities 0 and 1; an occasional 8-10 s run."""
 from __future__ import annotations
 
 import random
 
-from hv.scenarios.base import T, seed_all, stats_of, sub_seed
+from hv.scenarios.base import T, dur_ms, seed_all, size_over, stats_of, sub_seed
 
 NAME = "behavior"
 MODEL = None
@@ -48,9 +59,9 @@ def _model_spec(rng, depth=0):
             "w": [rng.randint(-5, 10) / 10.0 for _ in range(6)],
             "topic": rng.choice(TOPICS)}
     if kind == "utilityT":
-        spec["temp"] = rng.choice([0.05, 0.2, 0.5, 1.0, 2.0])
+        spec["temp"] = rng.choice([0.001, 0.05, 0.2, 0.5, 1.0, 2.0, 10.0])
     if kind == "bounded":
-        spec["asp"] = rng.choice([0.2, 0.4, 0.55, 0.7, 0.95])
+        spec["asp"] = rng.choice([0.0, 0.2, 0.4, 0.55, 0.7, 0.95, 2.0])
     if kind == "social":
         spec["conf"] = rng.choice([0.0, 0.3, 0.6, 0.9, 1.0])
     if kind == "rule":
@@ -61,7 +72,7 @@ def _model_spec(rng, depth=0):
                           "prio": rng.randint(0, 3)} for _ in range(rng.randint(2, 6))]
         spec["default"] = rng.choice([None, "wait", "ignore", "buy", "adopt"])
     if kind == "composite":
-        spec["parts"] = [[_model_spec(rng, 1), rng.randint(1, 5) / 2.0] for _ in range(rng.randint(2, 4))]
+        spec["parts"] = [[_model_spec(rng, 1), rng.randint(0, 5) / 2.0] for _ in range(rng.randint(1, 4))]
     return spec
 
 
@@ -98,64 +109,104 @@ def _stim(rng, n, end_ms, t):
     return s
 
 
+def _r3(x):
+    x = round(float(x), 3)
+    return int(x) if x.is_integer() else x
+
+
+def _maybe0(rng, p0, lo, hi):
+    return 0 if rng.random() < p0 else _r3(dur_ms(rng, lo, hi))
+
+
 def gen_cfg(rng):
-    n = rng.randint(20, 40)
-    end = rng.choice([2.0, 3.0, 4.0])
+    r = rng.random()
+    n = rng.randint(20, 40) if r < 0.78 else (rng.choice([1, 2, 3, 5]) if r < 0.9 else rng.randint(60, 80))
+    big = n > 40
+    end = rng.choice([2.0, 3.0, 4.0]) if big or rng.random() > 0.1 else rng.choice([8.0, 10.0])
+    long_run = end > 6
     end_ms = int(end * 1000)
     stimuli = []
-    for _ in range(rng.randint(8, 18)):
-        t = rng.randrange(50, end_ms - 250, 50)  # 50 ms grid → slots collide, several stimuli per instant
+    n_slots = rng.randint(8, 18) if not big else rng.randint(5, 9)
+    for _ in range(n_slots):
+        if rng.random() < 0.5:
+            t = rng.randrange(50, end_ms - 250, 50)  # 50 ms grid → slots collide, several stimuli per instant
+        else:
+            t = _r3(dur_ms(rng, 1, end_ms - 100))     # boundary palette: lossy absolute times above 1 s, decimals
         for _ in range(rng.choice([1, 1, 2, 3, 4])):
             stimuli.append(_stim(rng, n, end_ms, t))
     n_seg = rng.randint(2, 3)
-    fr = [[0.25, 0.55, 0.2], [0.5, 0.5], [0.33, 0.33, 0.33], [0.1, 0.7, 0.2], [0.6, 0.3]][rng.randrange(5)]
+    fr = [[0.25, 0.55, 0.2], [0.5, 0.5], [0.33, 0.33, 0.33], [0.1, 0.7, 0.2], [0.6, 0.3], [1.0, 0.0],
+          [0.0, 1.0, 0.0], [0.5, 0.25, 0.25]][rng.randrange(8)]
     n_adv = rng.randint(1, 2)
-    return {
+    hb_lo = 20 if not (big or long_run) else 150
+    graphs = GRAPHS if not big else [g for g in GRAPHS if "complete" not in g]
+    cfg = {
         "n": n,
         "end": end,
-        "pop_mode": rng.choice(["uniform", "segments", "segments", "manual"]),
+        "pop_mode": rng.choice(["uniform", "segments", "segments", "manual", "manual", "uniform-nomodel"]),
         "prefix": rng.choice(["agent", "user", "cust-x", "p"]),
         "models": [_model_spec(rng) for _ in range(rng.randint(1, 3))],
         "segments": [{"frac": f,
                       "dist": rng.choice(["normal", "normal-std", "uniform", "none"]),
-                      "means": [rng.randint(1, 9) / 10.0 for _ in range(5)],
-                      "std": rng.choice([0.05, 0.15, 0.3]),
+                      "means": [rng.randint(0, 10) / 10.0 for _ in range(5)],
+                      "std": rng.choice([0.0, 0.05, 0.15, 0.3, 1.0]),
                       "own_seed": rng.random() < 0.6,
                       "state": rng.random() < 0.8} for f in fr[:max(n_seg, 2)]],
-        "graph": rng.choice(GRAPHS),
-        "sw_k": rng.choice([2, 4, 6]),
-        "sw_p": rng.choice([0.0, 0.1, 0.3, 0.8]),
-        "er_p": rng.choice([0.05, 0.1, 0.25]),
-        "g_weight": rng.choice([0.5, 1.0, 0.25]),
-        "g_trust": rng.choice([0.5, 1.0, 0.1]),
+        "graph": rng.choice(graphs),
+        "sw_k": rng.choice([2, 3, 4, 6, 50]) if not big else rng.choice([2, 3, 4, 6]),
+        "sw_p": rng.choice([0.0, 0.1, 0.3, 0.8, 1.0]),
+        "er_p": rng.choice([0.0, 0.05, 0.1, 0.25, 1.0]) if not big else rng.choice([0.0, 0.05, 0.1]),
+        "g_weight": rng.choice([0.5, 1.0, 0.25, 0.0]),
+        "g_trust": rng.choice([0.5, 1.0, 0.1, 0.0]),
         "extra_edges": [[rng.randrange(n), rng.randrange(n), rng.randint(0, 10) / 10.0, rng.randint(0, 10) / 10.0]
                         for _ in range(rng.randint(0, 12))],
         "ghost_node": rng.random() < 0.3,
         "influence": rng.choice(INFLUENCE),
-        "self_w": rng.choice([0.0, 0.3, 0.5, 0.9]),
-        "eps": rng.choice([0.1, 0.3, 0.6, 2.0]),
-        "infl_every_ms": rng.choice([0, 100, 150, 250, 500]),
+        "self_w": rng.choice([0.0, 0.3, 0.5, 0.9, 1.0]),
+        "eps": rng.choice([0.0, 0.1, 0.3, 0.6, 2.0]),
+        "infl_every_ms": _maybe0(rng, 0.2, 40 if not (big or long_run) else 250, 800),
         "infl_topic": rng.choice(TOPICS),
-        "hb_ms": [rng.choice([0, 0, 100, 150, 250, 400]) for _ in range(rng.randint(1, 4))],
-        "delay_ms": [rng.choice([0, 0, 0, 5, 20, 100, 350]) for _ in range(rng.randint(1, 4))],
+        "hb_ms": [_maybe0(rng, 0.35, hb_lo, 1500) for _ in range(rng.randint(1, 4))],
+        "delay_ms": [_maybe0(rng, 0.4, 0.5, 1500) for _ in range(rng.randint(1, 4))],
         "float_times": rng.random() < 0.5,
         "early_events": rng.random() < 0.25,
         "stimuli": stimuli,
-        "pay_ms": rng.randint(1, 40),
-        "msg_ms": rng.randint(0, 30),
+        "pay_ms": _r3(dur_ms(rng, 0.5, 60, zero=True)),
+        "msg_ms": _maybe0(rng, 0.2, 0.5, 40),
         "share_budget": rng.randint(0, 2),
-        "shop_stock": rng.choice([5, 20, 60, 150, 400]),
-        "shop_every": rng.randint(2, 6),
+        "shop_stock": rng.choice([0, 5, 20, 60, 150, 400]),
+        "shop_every": rng.randint(1, 6),
         "shop_reprices": rng.randint(0, 3),
-        "shop_ms": rng.randint(1, 50),
-        "poll_ms": rng.choice([0, 100, 200, 250]),
-        "advertisers": [{"price": float(rng.choice([60, 100, 150])), "cost": float(rng.choice([20, 50, 55])),
-                         "every_ms": rng.choice([100, 200, 250, 300, 500]),
-                         "tiers": [[rng.randint(10, 1000), rng.randint(5, 90) * 1.0]
-                                   for _ in range(rng.randint(2, 5))]} for _ in range(n_adv)],
-        "sentiment": [[rng.randrange(100, end_ms - 100, 50), rng.randint(0, 12) / 10.0, rng.randrange(n_adv)]
+        "shop_ms": _r3(dur_ms(rng, 0.5, 80, zero=True)),
+        "poll_ms": _maybe0(rng, 0.25, 30 if not long_run else 200, 1200),
+        "advertisers": [{"price": float(rng.choice([60, 100, 150])), "cost": float(rng.choice([20, 50, 55, 150])),
+                         "every_ms": _r3(dur_ms(rng, 50 if not long_run else 250, 2500)),
+                         "tiers": [[rng.randint(0, 1000), rng.randint(5, 90) * 1.0]
+                                   for _ in range(rng.randint(0, 5))]} for _ in range(n_adv)],
+        "sentiment": [[_r3(dur_ms(rng, 1, end_ms - 100)), rng.randint(-2, 12) / 10.0, rng.randrange(n_adv)]
                       for _ in range(rng.randint(0, 6))],
+        # one agent receives more stimuli than AgentState keeps memories (deque(maxlen=100)): wrap-around
+        "hot": {"idx": rng.randrange(n), "n": size_over(rng, [0, 0, 0, 10, 40], 100),
+                "start_ms": _r3(dur_ms(rng, 0, 900, zero=True)), "gap_ms": _r3(dur_ms(rng, 0.5, 12, zero=True)),
+                "via_env": rng.random() < 0.5, "choices": rng.choice(CHOICE_SETS), "valence": rng.choice([0.0, 0.5, -0.7])},
+        "env_ctor": rng.choice(["full", "full", "late", "defaults"]),
+        # every DecisionModel kind in one population (agents get the models round-robin) and every InfluenceModel in
+        # one run (Environment.influence_model is swapped at these times)
+        "mix_models": rng.random() < 0.5,
+        "infl_switch": [[_r3(dur_ms(rng, 100, end_ms - 100)), k] for k in rng.sample(INFLUENCE, 3)]
+                       if rng.random() < 0.5 else [],
+        "bare_agents": rng.random() < 0.3,
     }
+    if cfg["mix_models"]:
+        specs = []
+        for kind in MODEL_KINDS:
+            for _ in range(200):
+                sp = _model_spec(rng)
+                if sp["kind"] == kind:
+                    specs.append(sp)
+                    break
+        cfg["models"] = specs
+    return cfg
 
 
 # --------------------------------------------------------------------------------------------- decision models
@@ -277,9 +328,13 @@ def build(cfg, seed):
     models = cfg["models"]
     srng = random.Random(sub_seed(seed, "state"))
 
+    def I(ms):
+        """exact Instant of a (possibly fractional) millisecond value"""
+        return Instant(int(round(ms * 1_000_000)))
+
     def at(ms):
         """stimulus time: float seconds (library truncates to ns) or an exact Instant"""
-        return ms / 1000.0 if cfg["float_times"] else Instant(ms * 1_000_000)
+        return ms / 1000.0 if cfg["float_times"] else I(ms)
 
     def fresh_state():
         return AgentState(
@@ -294,9 +349,10 @@ def build(cfg, seed):
     pop_graph = {"pop_small_world": "small_world", "pop_complete": "complete", "pop_random": "random"}.get(
         gkind, "small_world")
     mode = cfg["pop_mode"]
-    if mode == "uniform":
-        pop = Population.uniform(size=n, decision_model=make_model(models[0]), graph_type=pop_graph,
-                                 seed=sub_seed(seed, "pop"), name_prefix=prefix)
+    bare = cfg.get("bare_agents", False)
+    if mode in ("uniform", "uniform-nomodel"):
+        pop = Population.uniform(size=n, decision_model=make_model(models[0]) if mode == "uniform" else None,
+                                 graph_type=pop_graph, seed=sub_seed(seed, "pop"), name_prefix=prefix)
         for a in pop.agents:  # uniform() gives default states; opinions are seeded like the examples do
             st = fresh_state()
             a.state.beliefs.update(st.beliefs)
@@ -327,6 +383,9 @@ def build(cfg, seed):
         agents = []
         for i in range(n):
             nm = f"{prefix}-{(i * 37 + 11) % 101}"
+            if bare and i % 5 == 3:   # constructor defaults: default traits / state, no model, no heartbeat
+                agents.append(Agent(nm, seed=sub_seed(seed, "agent", i)))
+                continue
             agents.append(Agent(
                 name=nm,
                 traits=PersonalityTraits.big_five(*[trng.randint(0, 10) / 10.0 for _ in range(5)]),
@@ -339,6 +398,11 @@ def build(cfg, seed):
                                                          rng=random.Random(sub_seed(seed, "popgraph"))))
     agents = pop.agents
     names = [a.name for a in agents]
+    n = len(agents)
+    if cfg.get("mix_models", False) and mode != "uniform-nomodel":
+        for i, a in enumerate(agents):
+            if a.decision_model is not None:
+                a.decision_model = make_model(models[i % len(models)])
     if mode != "manual":
         for i, a in enumerate(agents):
             a.heartbeat_interval = cfg["hb_ms"][i % len(cfg["hb_ms"])] / 1000.0
@@ -363,16 +427,26 @@ def build(cfg, seed):
         graph.add_bidirectional_edge("outsider-1", names[n // 2], weight=0.9, trust=0.2)
         graph.add_edge("outsider-1", names[0], weight=0.4, trust=0.9)
 
-    infl = cfg["influence"]
-    if infl == "degroot":
-        imodel = DeGrootModel(self_weight=cfg["self_w"])
-    elif infl == "bounded":
-        imodel = BoundedConfidenceModel(epsilon=cfg["eps"], self_weight=cfg["self_w"])
-    else:
-        imodel = VoterModel()
-    env = Environment(name="market", agents=agents, social_graph=graph,
-                      shared_state={"price": 80.0, "demand": 0.5}, influence_model=imodel,
-                      seed=sub_seed(seed, "env"))
+    def make_influence(infl):
+        if infl == "degroot":
+            return DeGrootModel(self_weight=cfg["self_w"])
+        if infl == "bounded":
+            return BoundedConfidenceModel(epsilon=cfg["eps"], self_weight=cfg["self_w"])
+        return VoterModel()
+
+    imodel = make_influence(cfg["influence"])
+    env_ctor = cfg.get("env_ctor", "full")
+    if env_ctor == "full":
+        env = Environment(name="market", agents=agents, social_graph=graph,
+                          shared_state={"price": 80.0, "demand": 0.5}, influence_model=imodel,
+                          seed=sub_seed(seed, "env"))
+    elif env_ctor == "late":
+        env = Environment(name="market", social_graph=graph, shared_state={"price": 80.0, "demand": 0.5},
+                          influence_model=imodel, seed=sub_seed(seed, "env"))
+        for a in agents:
+            env.register_agent(a)
+    else:   # constructor defaults: DeGrootModel(), empty shared state
+        env = Environment("market", agents, graph, seed=sub_seed(seed, "env"))
 
     # ------------------------------------------------------------------ harness entities
     sink = Sink("adoptions")
@@ -526,7 +600,7 @@ def build(cfg, seed):
         evs = []
         for s in cfg["stimuli"]:
             k, t = s["k"], s["t"]
-            exact = Instant(t * 1_000_000)
+            exact = I(t)
             if k in ("bcast", "target", "direct"):
                 ch = _choices(s["form"], s["choices"], s["price"])
             if k == "bcast":
@@ -557,10 +631,24 @@ def build(cfg, seed):
                                                            "credibility": s["cred"], "knowledge": list(s["know"])}}))
         return evs
 
+    class Switcher(Entity):
+        """swaps the Environment's influence model (public attribute) in the middle of the run"""
+
+        def __init__(self):
+            super().__init__("switcher")
+            self.log = []
+
+        def handle_event(self, event):
+            kind = event.context["metadata"]["kind"]
+            env.influence_model = make_influence(kind)
+            self.log.append([self.now.nanoseconds, kind])
+            return None
+
+    switcher = Switcher()
     # cfg["early_events"]: the stimulus events are created before the Simulation object exists and scheduled
     # afterwards (as tests/test_event_cancellation.py does); otherwise they are created after it (as the examples do)
     early = stimulus_events() if cfg["early_events"] else None
-    sim = Simulation(end_time=T(end), entities=[env, *agents, shop, sink, counter, pollster, platform, *advertisers])
+    sim = Simulation(end_time=T(end), entities=[env, *agents, shop, sink, counter, pollster, platform, *advertisers, switcher])
     sim.schedule(early if early is not None else stimulus_events())
 
     for a in agents:
@@ -568,15 +656,36 @@ def build(cfg, seed):
         if hb is not None:
             sim.schedule(hb)
     if cfg["infl_every_ms"]:
-        for t in range(cfg["infl_every_ms"], end_ms, cfg["infl_every_ms"]):
-            sim.schedule(influence_propagation(at(t), env, cfg["infl_topic"]))
+        k = 1
+        while k * cfg["infl_every_ms"] < end_ms:
+            t = k * cfg["infl_every_ms"]
+            sim.schedule(influence_propagation(at(t if isinstance(t, int) else round(t, 3)), env, cfg["infl_topic"]))
+            k += 1
     if cfg["poll_ms"]:
-        sim.schedule(Event(time=Instant(cfg["poll_ms"] * 1_000_000), event_type="Poll", target=pollster, daemon=True))
+        sim.schedule(Event(time=I(cfg["poll_ms"]), event_type="Poll", target=pollster, daemon=True))
+    for t, kind in cfg.get("infl_switch", []):
+        sim.schedule(Event(time=I(t), event_type="SwitchInfluence", target=switcher, daemon=True,
+                           context={"metadata": {"kind": kind}}))
+    hot = cfg.get("hot")
+    if hot and hot["n"]:
+        # more stimuli for one agent than its episodic memory holds (wrap-around of deque(maxlen=100))
+        hname = names[hot["idx"] % n]
+        for j in range(hot["n"]):
+            t = round(hot["start_ms"] + j * hot["gap_ms"], 3)
+            if t >= end_ms:
+                break
+            if hot["via_env"] and j % 2 == 0:
+                sim.schedule(targeted_stimulus(at(t), env, [hname], "Nudge", choices=list(hot["choices"]),
+                                               valence=hot["valence"], source=f"hot-{j}"))
+            else:
+                sim.schedule(Event(time=I(t), event_type="Nudge", target=agent_by_name[hname],
+                                   context={"metadata": {"choices": list(hot["choices"]), "valence": hot["valence"],
+                                                         "source": f"hot-{j}"}}))
     for adv in advertisers:
         for e in adv.start_events():
             sim.schedule(e)
     for t, val, i in cfg["sentiment"]:
-        sim.schedule(Event(time=Instant(t * 1_000_000), event_type="SentimentChange", target=advertisers[i],
+        sim.schedule(Event(time=I(t), event_type="SentimentChange", target=advertisers[i],
                            context={"metadata": {"sentiment": val}}))
 
     # ------------------------------------------------------------------ observers
@@ -589,6 +698,7 @@ def build(cfg, seed):
                 "mood": st.mood, "satisfaction": st.satisfaction, "energy": st.energy,
                 "knowledge": sorted(st.knowledge),
                 "n_mem": len(st.recent_memories(1000)),
+                "oldest_mem": [[m.time, m.source] for m in st.recent_memories(1000)[-1:]],
                 "mem": [[m.time, m.event_type, m.source, m.valence] for m in mem],
                 "avg_valence": st.average_recent_valence(5),
                 "traits": [[k, a.traits.get(k)] for k in sorted(a.traits.names())],
@@ -611,7 +721,12 @@ def build(cfg, seed):
                 "active": [t.name for t in adv.active_tiers],
                 "profit": list(adv.profit_data.values), "rev": adv.platform_revenue_data.values,
                 "tiers": adv.active_tier_data.values, "cpa": adv.blended_cpa_data.values,
-                "margin_pct": adv.margin_pct_data.values, "sales": adv.total_sales_data.values}
+                "margin_pct": adv.margin_pct_data.values, "sales": adv.total_sales_data.values,
+                "sentiment_series": adv.sentiment_data.values, "gross": adv.gross_revenue_data.values,
+                "spend": adv.ad_spend_data.values,
+                "sensitivity": [[r["sentiment"], r["advertiser_profit"], r["platform_revenue"], r["tier_names"]]
+                                for r in adv.sensitivity_analysis(steps=4)],
+                "breakeven": [[t.name, t.breakeven_sentiment(adv.margin), t.monthly_ad_spend] for t in adv.tiers]}
 
     obs = {
         "agents": lambda: [[nm, agent_view(agent_by_name[nm])] for nm in sorted(names)],
@@ -626,6 +741,7 @@ def build(cfg, seed):
         "counter": lambda: {"total": counter.total,
                             "by_type": [[k, counter.by_type[k]] for k in sorted(counter.by_type)]},
         "handled": lambda: handled["n"],
+        "switcher": lambda: {"log": list(switcher.log), "model": type(env.influence_model).__name__},
         "pollster": lambda: list(pollster.series),
         "platform": lambda: {"stats": stats_of(platform)(), "rev": platform.revenue_data.values},
     }
